@@ -8,6 +8,9 @@ CONSTANTS
   KCfgs <- DefKCfgs
   Guard = "support"
   KAvg = "own"
+  AbExps = {4,20}
+  AbOrd = 4
+  AbFloor = 99
   OnlyBasis = FALSE
   Export = FALSE
 CONSTRAINT Emit
@@ -18,3 +21,4 @@ INVARIANT OrderFree
 INVARIANT ProductOverComponents
 INVARIANT ZeroNeutral
 INVARIANT FitsInv
+INVARIANT ProportionalToAbundance
